@@ -592,3 +592,10 @@ def c07_5(run):
 def _tag(o, ident):
     o.attrs['ident'] = ident
     return o
+
+
+# ----------------------------------------------------------------------------------------------------------------- C07-6 (receiver side, shared with C17-3)
+from obligations import c17 as _c17
+obligation('C07', 'C07-6a receiver: SequencerBlock::try_from_raw accepts only after the rollup-transactions root, every rollup\'s transactions and the rollup ids were shown to be included under the data hash (= C17-3a)')(_c17.must_verify('SequencerBlock'))
+obligation('C07', 'C07-6b receiver: FilteredSequencerBlock::try_from_raw accepts only after the root proof, EVERY served rollup\'s transactions against that root and the rollup ids were checked (= C17-3b)')(_c17.must_verify('FilteredSequencerBlock'))
+obligation('C07', 'C07-6c receiver: SubmittedMetadata::try_from_raw (Celestia) accepts only after both proofs verified under the data hash (= C17-3c)')(_c17.must_verify('SubmittedMetadata'))
